@@ -105,6 +105,28 @@ CHECKS = {
         "(logs 4), thorough 6 (logs 5); two features per TLC instance."),
   technique="TLC model checking + spec-history replay on real files",
  ),
+ "C16": dict(
+  level="model_checking",
+  design_ref="DESIGN.md section 5, C16",
+  text=("DownsampleSpec states the post-condition (mask within the eligible "
+        "points, exactly min(request, eligible) points, all eligible for "
+        "request 0) and transcribes the data-dependent branches of "
+        "downsample_grid (occupancy grid, remove/add, padding with invalid "
+        "points); TLC checks the transcription against the post-condition "
+        "for every validity/occupancy pattern and request in the bound. "
+        "Every such input is realised as duplicate-heavy / clustered / "
+        "constant / spread arrays and given to downsample_grid, "
+        "downsample_rand, get_downsampled_scatter on a filtered dataset and "
+        "the event-limit filter, checking mask, count, unaltered values and "
+        "reproducibility (cache hit and cleared cache); large random inputs "
+        "are recorded as counts and judged by TLC (DownsampleTrace)."),
+  note=("the compiled Cython extension as installed is what is exercised "
+        "(.pyx cannot be rebuilt here); two defects inside downsampling.pyx "
+        "are listed as known findings because a repair cannot be built or "
+        "verified in this sandbox; inputs up to 5 (thorough 6) points "
+        "exhaustively, up to 1e5 points recorded."),
+  technique="TLC enumeration of inputs + post-condition check on real code + TLC trace validation",
+ ),
 }
 
 NOT_YET = "check not built yet (work in progress; see DESIGN.md section 5)"
